@@ -577,7 +577,10 @@ func (group *Group) writev2RtmpSubSessions(bs net.Buffers) {
 		if session.IsFresh || session.ShouldWaitVideoKeyFrame {
 			continue
 		}
-		_ = session.Writev(bs)
+		// 注意，net.Buffers.WriteTo会消费（置空）传入切片中的元素，多个session不能共用同一个切片，每个session拷贝一份切片头
+		bsCopy := make(net.Buffers, len(bs))
+		copy(bsCopy, bs)
+		_ = session.Writev(bsCopy)
 	}
 }
 
